@@ -17,6 +17,33 @@ def parsePairs (h : String) : Option (List (String × String)) :=
 def mapping (env : List (String × String)) (n : List Char) : List Char :=
   ((envLookup env (String.ofList n)).getD "").toList
 
+/-! Specification of load-time expansion on the *simple fragment* (C17 as stated): a text made of
+    `$$`, `$NAME`, `${NAME}` (NAME an identifier) and other characters; `$$` yields `$`, a reference
+    yields the value, everything else is kept. `none`: the text is outside the fragment (a lone `$`,
+    `$1`, `${}`, ...), where the property says nothing and only the model is compared. -/
+def isNameStart (c : Char) : Bool := c.isAlpha || c == '_'
+def isNameChar (c : Char) : Bool := c.isAlphanum || c == '_'
+
+def specLoad (mapping : List Char → List Char) : Nat → List Char → Option (List Char)
+  | 0, _ => none
+  | _, [] => some []
+  | f + 1, '$' :: '$' :: rest => (specLoad mapping f rest).map ('$' :: ·)
+  | f + 1, '$' :: '{' :: rest =>
+    let name := rest.takeWhile isNameChar
+    match rest.dropWhile isNameChar with
+    | '}' :: r =>
+      if (name.head?.map isNameStart).getD false then (specLoad mapping f r).map (mapping name ++ ·) else none
+    | _ => none
+  | f + 1, '$' :: c :: rest =>
+    if isNameStart c then
+      let name := (c :: rest).takeWhile isNameChar
+      (specLoad mapping f ((c :: rest).dropWhile isNameChar)).map (mapping name ++ ·)
+    else none
+  | _, ['$'] => none
+  | f + 1, c :: rest => (specLoad mapping f rest).map (c :: ·)
+
+def hasSub (t p : List Char) : Bool := (List.range (t.length + 1)).any fun i => p.isPrefixOf (t.drop i)
+
 def step (_ : Unit) (line : String) : Unit × String :=
   let (op, impl) := splitLine line
   match words op with
@@ -32,7 +59,14 @@ def step (_ : Unit) (line : String) : Unit × String :=
       let r := hexEncE (String.ofList (loadText (mapping env) txt.toList))
       -- spec on the plain fragment: text without `$` and `#` is loaded unchanged
       let plain := txt.toList.all fun c => c != '$' && c != '#'
-      ((), r ++ " ||| " ++ (if plain && impl != hexEncE txt then "bad:plain-text-altered" else "ok"))
+      -- spec on the simple fragment (the text and the values are free of the internal placeholder)
+      let clean := !hasSub txt.toList envEscaped && env.all fun kv => !hasSub kv.2.toList envEscaped
+      let want := if clean then specLoad (mapping env) (txt.length + 1) txt.toList else none
+      let v := if plain && impl != hexEncE txt then "bad:plain-text-altered"
+        else match want with
+          | some w => if impl == hexEncE (String.ofList w) then "ok" else "bad:load-differs-from-spec want=" ++ hexEncE (String.ofList w)
+          | none => "ok"
+      ((), r ++ " ||| " ++ v)
     | _, _ => ((), "bad-op")
   | ["procenv", nh, rep, a, b, c, kh] =>
     match hexDec nh, rep.toNat?, parsePairs a, parsePairs b, parsePairs c, hexDec kh with
